@@ -12,16 +12,54 @@ def crossed_rehash(cid, lines, ri):
 
 RULE = ("seeded op scripts (insert/operator[]=/get+find/remove/iterate/size) over 5 hash functions returning 64-bit values "
         "(identity, constant, mod 3, frg::hash<uint64_t>, k>>28; the first and last exceed 2^32) and key spaces 8..2^40 plus 2^32, 2^63, 2^64-1, biased to "
-        "cross rehash thresholds; non-trivial = distinct script with more than 10 insertions (>= 1 rehash beyond the first)")
+        "cross rehash thresholds; non-trivial = distinct script with more than 10 insertions (>= 1 rehash beyond the first). "
+        "POINTER-LEVEL model (coq/HashMap/HashMapPtr.v, proved to refine the chain-level model): the same scripts; compared with the "
+        "real code after EVERY op: the result line, the raw object (_table block id, _capacity, _size, per bucket the chain of "
+        "(node block id, key, value) read through -fno-access-control) and, under C16, the allocator/lifetime event line")
 TRUSTED = ["extraction: ExtrOcamlBasic only; OCaml 4.13.1; comp/hashmap/driver.ml (hash functions re-implemented in OCaml)",
            "correspondence harness comp/hashmap/harness.cpp (g++ -fsanitize=address,undefined, -fno-access-control)",
            "oracle: std::unordered_map, lifetime/allocation registries in lib/vharness.hpp",
-           "modelled, not verified: chain pointers as lists, placement new/destroy (checked by the registries)"]
+           "comp/hashmap/driver_ptr.ml (pointer-level model driver; re-tabulates the model's node heap over the allocated ids after every op)",
+           "transliteration of hash_map.hpp into coq/HashMap/HashMapPtr.v (assignment by assignment, by hand): tied to the source by the "
+           "comparison of the raw table (block ids, keys, values, chain order of every bucket) after every op; the refinement pointer-level "
+           "-> chain-level model is PROVED (Properties_C14_ptr.v), no longer trusted",
+           "modelled, not verified: placement new/destroy (checked by the registries)"]
+
+def _keep(pid):
+    """which lines of a run take part in the comparison under property pid"""
+    if pid.startswith("C16"):
+        return lambda l: True
+    # allocator/lifetime event lines ("e ...", "dtor") are the C16 tie; other properties compare the results only
+    return lambda l: not (l == "e" or l.startswith("e ") or l == "dtor")
+
+def run_ptr(c, drvp, cases, impl, impl_full, sizes):
+    """POINTER-LEVEL model (coq/HashMap/HashMapPtr.v): the same cases (implementation results reused); compared are the
+    result lines, (under C16) the event lines, and the raw table line after every op."""
+    pm = vlib.run_cases(drvp, cases, args=sizes)
+    keep = _keep(c.pid)
+    for cid, lines in cases:
+        ri, rm = impl.get(cid), pm.get(cid)
+        if ri is None or ri.get("crash"):
+            continue                       # already reported by the chain-level comparison
+        if rm is None:
+            c.mismatch(cid, lines, "pointer-level model produced no output"); continue
+        if rm.get("crash"):
+            c.mismatch(cid, lines, "pointer-level model driver crashed: " + rm["crash"][-300:]); continue
+        a = [l for l in impl_full.get(cid, []) if keep(l)]
+        b = [l for l in rm["lines"] if keep(l)]
+        c.count("hashmap_ptr_lines_compared", len(a))
+        c.count("hashmap_ptr_table_dumps_compared", sum(1 for l in a if l.startswith("t ")))
+        d = vlib.first_diff(a, b)
+        if d:
+            c.mismatch(cid, lines, "pointer-level model: line %d: impl=%r model=%r" % d)
 
 def run(c):
     """legs C and O for hash_map; returns False if the harness could not be built."""
     okm, _ = vlib.coq_make(["HashMap/HashMapExtract.vo"])
     okd, drv, dlog = vlib.ocaml_build("hashmap_m", ["hashmap_model"], os.path.join(vlib.ROOT, "comp/hashmap/driver.ml"))
+    okp, drvp, plog = vlib.ocaml_build("hashmap_p", ["hashmap_model"], os.path.join(vlib.ROOT, "comp/hashmap/driver_ptr.ml"))
+    if okm and not okp:
+        c.broken.append("hashmap pointer-level model driver build failed: " + plog[-500:])
     okh, har, hlog = vlib.cxx_build("hashmap_h", os.path.join(vlib.ROOT, "comp/hashmap/harness.cpp"))
     if not (okm and okd):
         c.broken.append("hashmap model extraction/driver build failed: " + dlog[-500:])
@@ -48,6 +86,10 @@ def run(c):
     c.extra["hashmap_sizeof_chain_ptr"], c.extra["hashmap_sizeof_chain"] = int(sizes[0]), int(sizes[1])
     impl = vlib.run_cases(har, cases)
     model = vlib.run_cases(drv, cases, args=sizes) if okd else {}
+    # raw table lines ("t ...") are the tie of the POINTER-LEVEL model only; the chain-level comparison drops them
+    impl_full = {cid: list(r["lines"]) for cid, r in impl.items()}
+    for r in impl.values():
+        r["lines"] = [l for l in r["lines"] if not l.startswith("t ")]
     if not c.pid.startswith("C16"):
         # allocator/lifetime event lines ("e ...", "dtor") are the C16 tie; other properties compare the results only
         for res in (impl, model):
@@ -59,4 +101,6 @@ def run(c):
                 if l.startswith("e "):
                     c.count("hashmap_events", len(l.split()) - 1)
     c.compare(cases, impl, model, crossed_rehash)
+    if okp:
+        run_ptr(c, drvp, cases, impl, impl_full, sizes)
     return True
